@@ -179,11 +179,21 @@ def run_unit(unit, rec):
                     continue
                 rec.path()
                 rec.trans()
+                T_before = T.copy()
                 try:
                     X, sc, Bp = est.fit_adaptive(T, **kw)
                 except Exception as e:  # noqa
                     _v(rec, "a", dict(sig, **exc_sig(e)), "fit_adaptive raised %r" % (e,), case, script=scr)
                     rec.outcome("exception")
+                    T[...] = T_before
+                    continue
+                if not np.array_equal(T, T_before):
+                    # the same target array is fitted again below with the next objective / weights / solver: a fit that rewrites
+                    # its caller's targets makes every later fit of that array answer for other targets
+                    _v(rec, "a", dict(sig, what="targets overwritten"), "fit_adaptive modified the caller's target array in place (a second fit of the same array answers for different targets)",
+                       case, observed=T.copy(), expected=T_before, script=scr)
+                    rec.outcome("targets-overwritten")
+                    T[...] = T_before
                     continue
                 if np.any(mg < 0):
                     rec.distinct((spec, sname, nname, objective, wname, solver, d1))
